@@ -188,7 +188,8 @@ class _Nodes(_Sub):
                     "indexing_pressure": {"memory": {"total": {"all_in_bytes": 0}}},
                 }
             return {"nodes": nodes}
-        raise tlc.MachineryError("fake ES: unexpected nodes.stats(metric=%r, level=%r)" % (metric, level))
+        es.w.fatal = "fake ES: unexpected nodes.stats(metric=%r, level=%r)" % (metric, level)
+        raise tlc.MachineryError(es.w.fatal)
 
 
 class _Indices(_Sub):
@@ -243,7 +244,8 @@ class FakeEs:
                     ]
                 }
             }
-        raise tlc.MachineryError("fake ES: unexpected perform_request(%r)" % (path,))
+        self.w.fatal = "fake ES: unexpected perform_request(%r)" % (path,)
+        raise tlc.MachineryError(self.w.fatal)
 
 
 # ---------------------------------------------------------------------------------------------------
@@ -371,6 +373,8 @@ class World:
         self.prev = None
         self.hung = False
         self.notes = []
+        self.calm_after = 10**9
+        self.fatal = None  # a machinery problem noticed on an actor's thread (the code under test may swallow the exception)
 
     # ---- construction ------------------------------------------------------------------------------
     def _params(self, dv, key):
@@ -519,7 +523,9 @@ class World:
         actor.resume = value
         self.running = actor
         actor.go.release()
-        self.back.acquire()
+        # wall-clock watchdog for the machinery only (an actor that never reaches a hand-over point), never a verdict
+        if not self.back.acquire(timeout=60):
+            raise tlc.MachineryError("an actor of the telemetry harness did not reach a hand-over point within 60 s: %r" % (actor.wait,))
         self.running = None
 
     def pause(self, what):
@@ -585,6 +591,8 @@ class World:
         if a is None:
             raise RuntimeError("cannot join thread before it is started")
         self.cur_join = a
+        # join() is a scheduling point also when the thread has already ended
+        self.pause(("join", a))
         while not a.done:
             self.pause(("join", a))
         a.tjoin = self.now
@@ -648,30 +656,35 @@ class World:
             d, c = a.d, a.c
         else:
             d, c = self.cur_dev, 0
-        if name == "ccr-stats":
-            el, v = doc["shard"]["follower_index"], doc["shard"]["operations_written"]
-        elif name == "recovery-stats":
-            el, v = doc["shard"]["verif_index"], doc["shard"]["verif_req"]
-        elif name == "node-stats":
-            el, v = self._node_of(), doc.get("jvm_mem_heap_used_in_bytes", 0) % 1000
-            f = sorted(k for k in doc if k not in ENVELOPE)
-        elif "transform_" in name:
-            el, v = meta.get("transform_id", "?"), doc["value"]
-            if name.startswith("total_") and self.cur_join is not None:
-                c = self.cur_join.c
-        elif name.startswith("ingest_pipeline"):
-            c = cindex(meta.get("cluster_name", ""))
-            el, v = ("" if "cluster_count" in name else self._node_of()), doc["value"]
-        elif name in ("node_young_gen_gc_time", "disk_io_write_bytes", "disk_io_read_bytes"):
-            el, v = self._node_of(), doc["value"]
-        elif name == "node_startup_time":
-            el, v = self._node_of(), _ticks(doc["value"])
-        else:
-            v = doc["value"]
-        if isinstance(v, float):
-            if abs(v - round(v)) > 1e-6:
-                raise tlc.MachineryError("non-integral value %r in %s" % (v, name))
-            v = int(round(v))
+        try:
+            if name == "ccr-stats":
+                el, v = doc["shard"]["follower_index"], doc["shard"]["operations_written"]
+            elif name == "recovery-stats":
+                el, v = doc["shard"]["verif_index"], doc["shard"]["verif_req"]
+            elif name == "node-stats":
+                el, v = self._node_of(), doc.get("jvm_mem_heap_used_in_bytes", 0) % 1000
+                f = sorted(k for k in doc if k not in ENVELOPE)
+            elif "transform_" in name:
+                el, v = meta.get("transform_id", "?"), doc["value"]
+                if name.startswith("total_") and self.cur_join is not None:
+                    c = self.cur_join.c
+            elif name.startswith("ingest_pipeline"):
+                c = cindex(meta.get("cluster_name", ""))
+                el, v = ("" if "cluster_count" in name else self._node_of()), doc["value"]
+            elif name in ("node_young_gen_gc_time", "disk_io_write_bytes", "disk_io_read_bytes"):
+                el, v = self._node_of(), doc["value"]
+            elif name == "node_startup_time":
+                el, v = self._node_of(), _ticks(doc["value"])
+            else:
+                v = doc["value"]
+            if isinstance(v, float):
+                # a value off the integer grid is logged as -999 (judged by TLC), not raised on the actor's thread
+                v = int(round(v)) if abs(v - round(v)) <= 1e-6 else -999
+            if isinstance(v, bool) or not isinstance(v, int) or abs(v) >= 2**31 or not isinstance(el, str):
+                el, v = str(el), -999
+        except (KeyError, TypeError, AttributeError):
+            # a document without the expected shape is still logged: TLC judges it (SamplesStored)
+            el, v = "?", -999
         lvl = self.cur_level.name if self.cur_level is not None else "none"
         rel = doc["relative-time"] * TPS / 1000.0
         self.docs.append({"d": d, "c": c, "name": name, "el": el, "v": v, "t": int(round(rel)), "lvl": lvl, "md": md, "f": f})
@@ -776,7 +789,9 @@ class World:
             if a is None or a.done or a.wait[0] != "es":
                 return False
             if not x:
-                x = [self.rnd.choice([0, 0, 0, 0, TERR, AERR])]
+                # no more failures once the caller has been waiting in join() for a while (a finish() that hangs must show)
+                calm = self.main_state() == "join" and self.now >= self.calm_after
+                x = [0] if calm else [self.rnd.choice([0, 0, 0, 0, TERR, AERR])]
             self._resume(a, x[0])
         elif name == "Tick":
             self.now += 1
@@ -978,6 +993,7 @@ def execute(scn, schedule=None, seed=0, max_time=12, max_steps=400):
     _setup()
     rnd = random.Random(seed) if schedule is None else None
     w = World(scn, rnd=rnd)
+    w.calm_after = max_time + 6
     diverged = None
     with Patches():
         _W = w
@@ -1001,12 +1017,16 @@ def execute(scn, schedule=None, seed=0, max_time=12, max_steps=400):
                         # the caller hurries up once the clock bound is reached
                         next_call_at = 0
                     ops = [o for o in ops if not (o[0] in ("Call", "End") and w.now < next_call_at)]
+                    if w.main_state() == "join" and w.now >= max_time + 30:
+                        # the caller has been waiting in join() for 15 s of virtual time although every request is answered
+                        w.hung = True
+                        break
                     if w.now >= max_time + 40:
                         ops = [o for o in ops if o[0] != "Tick"] or ops
                     if not ops:
                         w.hung = w.main_state() == "join"
                         break
-                    weights = [{"Tick": 2, "Call": 2, "End": 1, "Dev": 4, "Join": 4, "ThWake": 5, "ThAnswer": 3}[o[0]] for o in ops]
+                    weights = [{"Build": 1, "Tick": 2, "Call": 2, "End": 1, "Dev": 4, "Join": 4, "ThWake": 5, "ThAnswer": 3}[o[0]] for o in ops]
                     name, d, c = rnd.choices(ops, weights)[0]
                     if name == "End" and rnd.random() < 0.6:
                         continue
@@ -1021,13 +1041,16 @@ def execute(scn, schedule=None, seed=0, max_time=12, max_steps=400):
                 w.finish()
             finally:
                 _W = None
+    if w.fatal:
+        raise tlc.MachineryError("telemetry harness: %s (scenario %s)" % (w.fatal, scn))
     return {"scn": scn, "hung": w.hung, "events": w.events}, w.notes, diverged
 
 
 # ---------------------------------------------------------------------------------------------------
 # case sources
 # ---------------------------------------------------------------------------------------------------
-def behaviours_from_tlc(ctx, out, cfg, num, depth, seed_off):
+def simulate(ctx, cfg, num, depth, seed_off):
+    """One `tlc -simulate` run; returns (TlcResult, cases). Safe to call from a worker thread (only subprocess + file parsing)."""
     wd = tlc.prepare_workdir("Telemetry", "xtelsim")
     simdir = os.path.join(wd, "sim")
     os.makedirs(simdir)
@@ -1043,9 +1066,8 @@ def behaviours_from_tlc(ctx, out, cfg, num, depth, seed_off):
     )
     if not res.ok:
         raise tlc.MachineryError("simulation reported a model violation: %s" % res.out[-2000:])
-    out.add_tlc(res)
     cases = []
-    for fn in sorted(glob.glob(os.path.join(simdir, "b_*"))):
+    for fn in sorted(glob.glob(os.path.join(simdir, "b_*")), key=lambda f: [int(x) for x in re.findall(r"\d+", os.path.basename(f))]):
         states = parse_simulation_file(fn)
         scn = to_json(states[0]["scn"])
         sched = []
@@ -1053,8 +1075,13 @@ def behaviours_from_tlc(ctx, out, cfg, num, depth, seed_off):
             act = to_json(s["act"])
             sched.append((act["name"], act["d"], act["c"], list(act["a"])))
         if sched:
-            cases.append({"src": "tlc-simulate", "scn": scn, "schedule": sched})
-    return cases
+            cases.append({"src": "tlc-simulate:" + cfg, "scn": scn, "schedule": sched})
+    return res, cases
+
+
+def model_check(cfg, timeout, workers):
+    wd = tlc.prepare_workdir("Telemetry", "xtelmc")
+    return tlc.run_tlc(wd, "MC_Telemetry", cfg, timeout=timeout, allow_violation=True, workers=workers)
 
 
 def _dev(kind, en=True, iv=1, idx="none", incl=False):
@@ -1191,34 +1218,43 @@ def run(ctx, out):
         "not modelled: FlightRecorder, JitCompiler, Heapdump, IndexSize, SegmentStats, ShardStats, SearchableSnapshotsStats, DataStreamStats, "
         "MasterNodeStats, DiskUsageStats, BlobStoreStats, GeoIpStats, MlBucketProcessingTime, *EnvironmentInfo (same sampler / container machinery)",
     ]
-    # ---- Leg M
-    todo = [("Telemetry.quick.cfg", 120), ("Telemetry.quicknode.cfg", 60)] if ctx.quick else [("Telemetry.thorough.cfg", 1500), ("Telemetry.quicknode.cfg", 100)]
-    todo.append(("Telemetry.repaired.cfg", 200))
-    for c, to in todo:
-        wd = tlc.prepare_workdir("Telemetry", "xtelmc")
-        res = tlc.run_tlc(wd, "MC_Telemetry", c, timeout=to, allow_violation=True, workers=8)
-        out.add_tlc(res)
-        if not res.ok:
-            raise tlc.MachineryError("model violates %s in %s: %s" % (res.invariant_violated or res.property_violated or "deadlock freedom", c, res.out[-1500:]))
-        out.note("leg M %s: %d distinct states, depth %d, %.1fs" % (c, res.distinct, res.depth, res.wall_s))
-    for c, inv, text in SELFTESTS:
-        wd = tlc.prepare_workdir("Telemetry", "xtelself")
-        res = tlc.run_tlc(wd, "MC_Telemetry", c, timeout=120, allow_violation=True, workers=2)
-        if res.invariant_violated != inv:
-            raise tlc.MachineryError("self-test failed: %s no longer violates %s (%s)" % (c, inv, res.out[-800:]))
-        out.extra.setdefault("model_selftests", []).append("%s violates %s in the model, as expected: %s" % (c, inv, text))
+    # ---- Leg M, the self-tests and the TLC simulations are independent TLC processes: run them side by side
+    import concurrent.futures as cf
+
+    tlc.scratch_root()
+    q = ctx.quick
+    mc = [("Telemetry.quick.cfg", 200, 6), ("Telemetry.quicknode.cfg", 100, 2)] if q else [("Telemetry.thorough.cfg", 2400, 8), ("Telemetry.quicknode.cfg", 200, 2), ("Telemetry.repaired.cfg", 600, 4)]
+    sims = [("Telemetry.sim.cfg", 100 if q else 700, 70, 41), ("Telemetry.simok.cfg", 80 if q else 700, 70, 42), ("Telemetry.simnode.cfg", 60 if q else 400, 45, 43)]
+    with cf.ThreadPoolExecutor(max_workers=5 if q else 4) as pool:
+        f_mc = [(c, pool.submit(model_check, c, to, wk)) for c, to, wk in mc]
+        f_sim = [(c, pool.submit(simulate, ctx, c, num, depth, off)) for c, num, depth, off in sims]
+        f_self = [(c, inv, text, pool.submit(model_check, c, 120, 1)) for c, inv, text in SELFTESTS]
+        for c, f in f_mc:
+            res = f.result()
+            out.add_tlc(res)
+            if not res.ok:
+                raise tlc.MachineryError("model violates %s in %s: %s" % (res.invariant_violated or res.property_violated or "deadlock freedom", c, res.out[-1500:]))
+            out.note("leg M %s: %d distinct states, depth %d, %.1fs" % (c, res.distinct, res.depth, res.wall_s))
+        for c, inv, text, f in f_self:
+            res = f.result()
+            if res.invariant_violated != inv:
+                raise tlc.MachineryError("self-test failed: %s no longer violates %s (%s)" % (c, inv, res.out[-800:]))
+            out.extra.setdefault("model_selftests", []).append("%s violates %s in the model, as expected: %s" % (c, inv, text))
+        sim = []
+        for c, f in f_sim:
+            res, cases = f.result()
+            out.add_tlc(res)
+            sim += cases
     # ---- Leg S2C + C2S
     stats = {k: 0 for k in ("runs", "events", "records", "runs_with_sampler", "record_errors", "joins", "raised_container_calls", "rejected_params", "hung", "s2c", "s2c_followed")}
     stats["l1"] = {}
     stats["pinned"] = {}
-    sim = behaviours_from_tlc(ctx, out, "Telemetry.sim.cfg", 120 if ctx.quick else 1500, 70, 41)
-    sim += behaviours_from_tlc(ctx, out, "Telemetry.simnode.cfg", 40 if ctx.quick else 400, 40, 43)
     out.note("leg S2C: %d TLC behaviours" % len(sim))
     items = run_cases(sim, out, "sim", stats)
-    out.sample({"source": "tlc-simulate", "scenario": sim[0]["scn"], "schedule": [list(s) for s in sim[0]["schedule"][:25]], "events": len(items[0]["events"])})
+    out.sample({"source": sim[0]["src"], "scenario": sim[0]["scn"], "schedule": [list(x) for x in sim[0]["schedule"][:25]], "events": len(items[0]["events"])})
     rnd = random.Random(ctx.seed + 47)
     rc = []
-    for k in range(220 if ctx.quick else 3000):
+    for k in range(450 if ctx.quick else 5000):
         rc.append({"src": "random", "scn": random_scenario(rnd), "seed": ctx.seed * 100003 + k, "max_time": rnd.choice([6, 10, 14])})
     items = run_cases(rc, out, "rnd", stats)
     out.sample({"source": "random", "scenario": rc[0]["scn"], "seed": rc[0]["seed"], "events": len(items[0]["events"])})
